@@ -352,6 +352,45 @@ impl Gen {
         }
     }
 
+    /// wrap a client command as a peer proxy would send it: `UMFORWARD <times> <cmd…>`. The counter is a
+    /// decimal string that the receiving side must use as a number only: half of the time it is chosen
+    /// so that CRC16 of its *text* falls on the other side (local / peer / uncovered) than the slot of the
+    /// command's key, so that routing by anything but the inner key shows.
+    fn umforward(&mut self, st: &mut Stats, inner: Vec<Arg>, local: &[(String, Ranges)], peer: &[(String, Ranges)]) -> Vec<Arg> {
+        st.count("gen.umforward");
+        let side = |s: usize| -> u8 { if !coverers(local, s).is_empty() { 0 } else if !coverers(peer, s).is_empty() { 1 } else { 2 } };
+        // nested wrappers are out of scope (the inner UMFORWARD would be routed as a data command by its counter)
+        let inner: Vec<Arg> = if arg(&inner, 0).map(|n| upper(n)) == Some(b"UMFORWARD".to_vec()) { inner[2.min(inner.len())..].to_vec() } else { inner };
+        let key_side: Option<u8> = match classify(&inner, true) {
+            Shape::Single(i) => arg(&inner, i).map(|k| side(ref_slot(k))),
+            Shape::Guarded(ks) | Shape::Unguarded(ks, _) => ks.first().map(|k| side(ref_slot(k))),
+            _ => None,
+        };
+        let times: Arg = match self.rng.below(20) {
+            0 => { st.count("gen.umforward.times_invalid");
+                   Some(self.rng.pick(&[&b""[..], b"x", b"-1", b"-0", b"1.5", b" 1", b"1 ", b"+", b"0x1", b"18446744073709551616", b"\xff", b"\xc4\xb1", b"\xd9\xa1"]).to_vec()) }
+            1 => { st.count("gen.umforward.times_nil"); None }
+            2 | 3 => { st.count("gen.umforward.times_spelling");
+                   Some(self.rng.pick(&[&b"+2"[..], b"002", b"+0", b"00", b"+18446744073709551615", b"000000000000000000000000001"]).to_vec()) }
+            4..=9 => { st.count("gen.umforward.times_fixed");
+                   Some(self.rng.pick(&[&b"0"[..], b"0", b"1", b"1", b"2", b"3", b"5", b"10", b"18446744073709551614", b"18446744073709551614", b"18446744073709551615"]).to_vec()) }
+            _ => {
+                // a counter whose text hashes to a different side than the key (or, for every 4th, the same side)
+                let want_other = !self.rng.chance(1, 4);
+                let start = self.rng.below(3000) as usize;
+                let found = key_side.and_then(|ks| (0..4000usize).map(|i| (start + i) % 4000).find(|n| (side(ref_slot(n.to_string().as_bytes())) != ks) == want_other));
+                match found {
+                    Some(n) => { st.count(if want_other { "gen.umforward.times_hash_other_side" } else { "gen.umforward.times_hash_same_side" }); Some(n.to_string().into_bytes()) }
+                    None => { st.count("gen.umforward.times_small"); Some(self.rng.below(4).to_string().into_bytes()) }
+                }
+            }
+        };
+        let mut a: Vec<Arg> = vec![Some(self.name_case("UMFORWARD")), times];
+        if self.rng.chance(1, 40) { st.count("gen.umforward.no_inner"); if self.rng.chance(1, 2) { a.truncate(1); } return a; }
+        a.extend(inner);
+        a
+    }
+
     /// keys for a multi-key command: same slot (via tags / representatives) or unrelated
     fn multi_keys(&mut self, st: &mut Stats, n: usize) -> Vec<Vec<u8>> {
         if self.rng.chance(1, 2) {
@@ -509,14 +548,17 @@ fn numkeys(a: &[Arg]) -> Option<usize> {
     s.parse::<usize>().ok()
 }
 
-fn classify(a: &[Arg]) -> Shape {
-    let name = match arg(a, 0) { Some(n) => n, None => return Shape::Other };
+/// `as_data`: the command was unwrapped from `UMFORWARD` — `handle_umforward` hands it to
+/// `handle_data_cmd` whatever its name, so the keyless / control names are single-key data commands there
+/// (a name that is not a bulk string still has its element 1 hashed)
+fn classify(a: &[Arg], as_data: bool) -> Shape {
+    let name = match arg(a, 0) { Some(n) => n, None => return if as_data && !a.is_empty() { Shape::Single(1) } else { Shape::Other } };
     if name.len() > 64 { return Shape::Single(1); }
     let up = upper(name);
     match up.as_slice() {
         b"PING" | b"INFO" | b"AUTH" | b"QUIT" | b"ECHO" | b"SELECT" | b"UMCTL" | b"UMFORWARD" | b"UMSYNC" | b"CONFIG"
-        | b"COMMAND" | b"ASKING" | b"HELLO" => Shape::Other,
-        b"CLUSTER" => match (arg(a, 1), arg(a, 2)) {
+        | b"COMMAND" | b"ASKING" | b"HELLO" if !as_data => Shape::Other,
+        b"CLUSTER" if !as_data => match (arg(a, 1), arg(a, 2)) {
             (Some(s), Some(k)) if upper(s) == b"KEYSLOT" => Shape::Keyslot(k.clone()),
             _ => Shape::Other,
         },
@@ -540,8 +582,8 @@ fn classify(a: &[Arg]) -> Shape {
 
 /// keys a delivered (sub-)command operates on, as far as the fake backends' vocabulary goes
 fn delivered_keys(c: &[Arg]) -> Vec<Vec<u8>> {
-    let c: &[Arg] = if arg(c, 0).map(|n| upper(n)) == Some(b"UMFORWARD".to_vec()) { c.get(2..).unwrap_or(&[]) } else { c };
-    match classify(c) {
+    let (c, fw): (&[Arg], bool) = if arg(c, 0).map(|n| upper(n)) == Some(b"UMFORWARD".to_vec()) { (c.get(2..).unwrap_or(&[]), true) } else { (c, false) };
+    match classify(c, fw) {
         Shape::Single(i) => arg(c, i).cloned().into_iter().collect(),
         Shape::Guarded(k) | Shape::Unguarded(k, _) => k,
         _ => vec![],
@@ -560,9 +602,35 @@ fn is_error(r: &Result<RespVec, String>) -> Option<Vec<u8>> {
 }
 
 /// the property on the implementation's observables; returns (what, finding id)
+/// `UMFORWARD <times> <cmd…>`: Some(Ok((times, inner))) for a well-formed wrapper, Some(Err(())) for a
+/// malformed one (`str::parse::<usize>` grammar: optional `+`, ASCII digits, no overflow), None otherwise
+fn unwrap_forward(a: &[Arg]) -> Option<Result<(usize, &[Arg]), ()>> {
+    if arg(a, 0).map(|n| upper(n)) != Some(b"UMFORWARD".to_vec()) { return None; }
+    let t = match arg(a, 1) { Some(t) => t, None => return Some(Err(())) };
+    let digits = t.strip_prefix(b"+").unwrap_or(t);
+    if digits.is_empty() || !digits.iter().all(|c| c.is_ascii_digit()) { return Some(Err(())); }
+    let mut n: u128 = 0;
+    for d in digits { n = n * 10 + (*d - b'0') as u128; if n > u64::MAX as u128 { return Some(Err(())); } }
+    if a.len() <= 2 { return Some(Err(())); }
+    Some(Ok((n as usize, &a[2..])))
+}
+
 fn oracle(w: &World, a: &[Arg], reply: &Result<RespVec, String>, ds: &[Delivery]) -> Vec<(String, &'static str)> {
     let mut bad: Vec<(String, &'static str)> = vec![];
-    let shape = classify(a);
+    // a command that arrives inside `UMFORWARD <times>` is the inner command with `times` redirections
+    // left: executed locally iff the slot of *its* key is local, else MOVED to the owner / handed on
+    // while times remain. The text of the counter must not take part in the routing.
+    let (a, forwarded): (&[Arg], Option<usize>) = match unwrap_forward(a) {
+        None => (a, None),
+        Some(Ok((t, inner))) => (inner, Some(t)),
+        Some(Err(())) => {
+            if is_error(reply).is_none() || !ds.is_empty() { bad.push(("malformed UMFORWARD wrapper was not refused".into(), "")); }
+            return bad;
+        }
+    };
+    // redirections the command may still take when it has to be handed to a peer
+    let budget: usize = forwarded.unwrap_or_else(|| w.cfg.max_redirections.map(|n| n - 1).unwrap_or(usize::MAX));
+    let shape = classify(a, forwarded.is_some());
     let installed = !w.name.is_empty();
     let ar = w.cfg.active_redirection;
     let distinct = |ks: &[Vec<u8>]| ks.iter().map(|k| ref_slot(k)).collect::<BTreeSet<_>>().len();
@@ -584,7 +652,7 @@ fn oracle(w: &World, a: &[Arg], reply: &Result<RespVec, String>, ds: &[Delivery]
             if !ok { this_wrong = true; }
         }
         if this_wrong {
-            match classify(inner) {
+            match classify(inner, inner.len() != c.len()) {
                 Shape::Unguarded(ks, f) if distinct(&ks) >= 2 => wrong_known.push(f),
                 _ => wrong_node = true,
             }
@@ -617,8 +685,12 @@ fn oracle(w: &World, a: &[Arg], reply: &Result<RespVec, String>, ds: &[Delivery]
                         if !ok { bad.push((format!("slot {} lives on a peer but the reply is not MOVED to a peer listing it", s), "")); }
                     } else {
                         let too_many = reply.as_ref().ok() == Some(&Resp::Error(ERR_TOO_MANY_REDIRECTIONS.as_bytes().to_vec()));
-                        let ok = (ds.len() == 1 && p.contains(&ds[0].0)) || (ds.is_empty() && too_many);
-                        if !ok { bad.push((format!("slot {} lives on a peer but the command was not forwarded to a peer listing it", s), "")); }
+                        let ok = if budget == 0 { ds.is_empty() && too_many } else {
+                            let mut want: Vec<Arg> = vec![Some(b"UMFORWARD".to_vec()), Some((budget - 1).to_string().into_bytes())];
+                            want.extend(a.iter().cloned());
+                            ds.len() == 1 && p.contains(&ds[0].0) && ds[0].1 == want
+                        };
+                        if !ok { bad.push((format!("slot {} lives on a peer but the command was not forwarded to a peer listing it with {} redirections left (refused when none is left)", s, budget.saturating_sub(1)), "")); }
                     }
                 } else if !ds.is_empty() || is_error(reply).is_none() {
                     bad.push((format!("slot {} is covered by nobody but the command did not fail", s), ""));
@@ -668,6 +740,7 @@ struct Run {
 }
 
 fn canon_reply(a: &[Arg], r: &Result<RespVec, String>) -> String {
+    let a: &[Arg] = match unwrap_forward(a) { Some(Ok((_, inner))) => inner, _ => a };
     match r {
         Ok(Resp::Error(e)) if e.starts_with(b"ERR: Invalid `numkeys`") && matches!(arg(a, 0).map(|n| upper(n)).as_deref(), Some(b"EVAL") | Some(b"EVALSHA")) => {
             format!("E:{}", hex(b"ERR: Invalid `numkeys`"))
@@ -708,7 +781,8 @@ impl Run {
         if a.is_empty() { op = "cmd".to_string(); }
         // HashMap-order dependent choice (MSETNX groups under active redirection): hand the observed
         // error to the model, which checks that it is one of the allowed ones
-        if self.world.cfg.active_redirection && arg(a, 0).map(|n| upper(n)) == Some(b"MSETNX".to_vec()) {
+        let data: &[Arg] = match unwrap_forward(a) { Some(Ok((_, inner))) => inner, _ => a };
+        if self.world.cfg.active_redirection && arg(data, 0).map(|n| upper(n)) == Some(b"MSETNX".to_vec()) {
             if let Some(e) = is_error(&reply) {
                 op.push_str(&format!(" pick={}", hex(&e)));
             }
@@ -739,6 +813,7 @@ impl Run {
             Err(_) => "out.err_result",
         };
         st.count(kind);
+        if let Some(Ok(_)) = unwrap_forward(a) { st.count(&format!("{}.umforward_arrival", kind)); }
         *self.case_flags.entry(kind).or_insert(0) += 1;
         if ds.len() > 1 { st.count("out.several_backend_deliveries"); }
         for (what, finding) in oracle(&self.world, a, reply, ds) {
@@ -779,7 +854,13 @@ impl Run {
                 let need = cl.len() >= 2 || (cl.is_empty() && cp.len() >= 2);
                 if !need { continue; }
                 self.s.stats.count("out.overlap_probe");
-                let a: Vec<Arg> = vec![Some(b"GET".to_vec()), Some(gen.key_for_slot[s].clone())];
+                let mut a: Vec<Arg> = vec![Some(b"GET".to_vec()), Some(gen.key_for_slot[s].clone())];
+                // with active redirection and max_redirections = 1 a client command has no redirection
+                // left (ERR_TOO_MANY_REDIRECTIONS names no peer): probe as a peer proxy with one left
+                if self.world.cfg.active_redirection && self.world.cfg.max_redirections == Some(1) && cl.is_empty() {
+                    self.s.stats.count("out.overlap_probe_umforward");
+                    a.splice(0..0, [Some(b"UMFORWARD".to_vec()), Some(b"1".to_vec())]);
+                }
                 let (op, observed, reply, ds) = self.exec(&a).await;
                 let winner: Option<String> = if let Some((x, _)) = ds.first() { Some(x.clone()) } else {
                     match &reply {
@@ -1009,7 +1090,11 @@ fn main() {
             run.do_cfg(cfg).await;
             if rng.chance(1, 4) {
                 // commands before any SETCLUSTER
-                for _ in 0..3 { let a = gen.cmd(&mut run.s.stats, &[]); run.do_cmd(&a).await; }
+                for _ in 0..3 {
+                    let a = gen.cmd(&mut run.s.stats, &[]);
+                    let a = if rng.chance(1, 4) { gen.umforward(&mut run.s.stats, a, &[], &[]) } else { a };
+                    run.do_cmd(&a).await;
+                }
             }
             let installs = 1 + rng.below(2);
             let mut text = String::new();
@@ -1020,6 +1105,8 @@ fn main() {
                 let hot = hot_slots(&run.world.local, &run.world.peer);
                 for _ in 0..per_case {
                     let a = gen.cmd(&mut run.s.stats, &hot);
+                    // every command shape also as a peer proxy would deliver it
+                    let a = if rng.chance(1, 4) { gen.umforward(&mut run.s.stats, a, &run.world.local, &run.world.peer) } else { a };
                     run.do_cmd(&a).await;
                 }
             }
@@ -1032,6 +1119,6 @@ fn main() {
                 run.s.stats.sample(json!({"cfg": format!("{:?}", run.world.cfg), "local": nodes_text(&run.world.local), "peer": nodes_text(&run.world.peer), "kinds": format!("{:?}", run.case_flags)}));
             }
         }
-        run.s.finish("route9", "hashing: brace corpus + one key per slot + random keys (8 classes); SlotMapData on raw ranges; proxy cases = config (active redirection, max_redirections, default address) x hand-built layout (arbitrary cuts, single-slot ranges, gaps, several ranges/SlotRanges per node, overlapping spans, odd ranges) x ~60-120 commands of 13 shapes; non-trivial case = at least one command executed locally, one MOVED/forwarded and one cross-slot refusal in the same case; distinct = distinct (config, installed layout)");
+        run.s.finish("route9", "hashing: brace corpus + one key per slot + random keys (8 classes); SlotMapData on raw ranges; proxy cases = config (active redirection, max_redirections, default address) x hand-built layout (arbitrary cuts, single-slot ranges, gaps, several ranges/SlotRanges per node, overlapping spans, odd ranges) x ~60-120 commands of 13 shapes, a quarter of them wrapped as UMFORWARD <times> (counter values 0/1/2/small/usize::MAX-1/usize::MAX, spellings +n/00n, malformed, and counters whose text hashes to the other side of the layout than the key); non-trivial case = at least one command executed locally, one MOVED/forwarded and one cross-slot refusal in the same case; distinct = distinct (config, installed layout)");
     });
 }
